@@ -27,6 +27,8 @@ def run_case(rng, res, idx, tier):
     spec = neox.gen_spec(rng, max_world=tier_value(tier, 8, 16), checkpoint=False)
     pp, dp, mp = spec['pp'], spec['dp'], spec['mp']
     policy = simdist.POLICIES[idx % len(simdist.POLICIES)]
+    ntr = len([e for e in spec['history'] if e[0] == 'train'])
+    spec['readback_steps'] = sorted({ntr - 1} | {t for t in range(ntr) if rng.random() < 0.5})
     case = dict(idx=idx, spec=spec, policy=policy)
     run = neox.run(spec, seed=rng.randrange(10 ** 6), policy=policy, stress=(idx % 6 == 0))
     if run.inconclusive:
